@@ -18,7 +18,11 @@ fn user_module(vals: &[String; 6], import: Option<&str>, local_decls: bool) -> S
     // `vals` are either the literals or the reference names
     let mut s = String::from("Messages DEFINITIONS AUTOMATIC TAGS ::= BEGIN\n");
     if let Some(imp) = import {
-        s += &format!("IMPORTS {} FROM {};\n", NAMES.join(", "), imp);
+        if let Some(raw) = imp.strip_prefix('@') {
+            s += raw; // a complete IMPORTS clause
+        } else {
+            s += &format!("IMPORTS {} FROM {};\n", NAMES.join(", "), imp);
+        }
     }
     if local_decls {
         s += "@DECLS@\n";
@@ -74,6 +78,13 @@ pub fn run_resolve(i: &Input) -> Result<(), String> {
         // a chain of imports: Messages imports from Middle, Middle imports from Limits (two hops)
         6 => (user_module(&refs, Some("Middle"), false),
               Some(format!("Limits DEFINITIONS AUTOMATIC TAGS ::= BEGIN\n{}END\u{1}Middle DEFINITIONS AUTOMATIC TAGS ::= BEGIN\nIMPORTS {} FROM Limits;\nEND", decls(&values), NAMES.join(", ")))),
+        // two import clauses whose symbols differ only in case: the types VLo, VHi, ... from Types (first), the values vLo, vHi, ... from Limits
+        7 => {
+            let types: Vec<String> = NAMES.iter().map(|n| { let mut c = n.chars(); c.next().map(|f| f.to_ascii_uppercase().to_string() + c.as_str()).unwrap_or_default() }).collect();
+            (user_module(&refs, Some(&format!("@IMPORTS {} FROM Types\n {} FROM Limits;\n", types.join(", "), NAMES.join(", "))), false),
+             Some(format!("Limits DEFINITIONS AUTOMATIC TAGS ::= BEGIN\n{}END\u{1}Types DEFINITIONS AUTOMATIC TAGS ::= BEGIN\n{}END", decls(&values),
+                          types.iter().map(|t| format!("{t} ::= BOOLEAN\n")).collect::<String>())))
+        }
         // a non-integer where an integer is needed
         _ => (user_module(&refs, None, true).replace("@DECLS@", &decls(&values).replace(&format!("vHi INTEGER ::= {hi}"), "vHi UTF8String ::= \"abc\"")), None),
     };
@@ -115,7 +126,7 @@ pub fn run_resolve(i: &Input) -> Result<(), String> {
 }
 
 pub fn search_resolve(try_one: &mut dyn FnMut(Input) -> bool) {
-    for placement in 0..7 {
+    for placement in 0..8 {
         for decoy in 0..3 {
             for order in 0..6 {
                 for ir in 0..INT_RANGES.len() {
